@@ -117,17 +117,18 @@ pub fn unbind_token_step() {
     end_checks(2);
 }
 
-#[kani::proof]
-#[kani::unwind(14)]
-pub fn bind_tokens_step() {
-    setup_world();
+/// one shape of the batch operation: `n` tokens enumerated (`written` = the entries exist), batch of `m` tokens; all
+/// lengths are CONCRETE on this path (the library's loops over the batch, the buckets and the enumeration keep concrete
+/// bounds), all addresses symbolic
+fn bind_tokens_shape(n: u32, written: bool, m: u32) {
     let e = Env::default();
-    let pre = declare_state(0);
-    let batch = List::arb(0, CAP as u32);
-    // vector capacity of the model: the enumeration and the batch fit one vector
-    kani::assume(pre.n + batch.n <= CAP as u32);
+    let pre = List::arb(0, CAP as u32).with_len(n);
+    kani::assume(pre.nodup());
+    model::declare_val(S_CNT, 0, &Key::TotalCount, written, &n, kani::any());
+    model::declare_val(S_B0, 0, &Key::TokenBucket(0), written, &pre.to_addr_vec(), kani::any());
+    let batch = List::arb(0, CAP as u32).with_len(m);
 
-    batch.call_as_addr_vec(|v| bind_tokens(&e, v));
+    bind_tokens(&e, &batch.to_addr_vec());
 
     let post = List::of_addr_slot(S_B0);
     prop!(batch.nodup(), "C20.binder.bind_tokens.duplicates_in_batch_refused");
@@ -150,24 +151,43 @@ pub fn bind_tokens_step() {
     prop!(inv_now(), "C20.binder.bind_tokens.enumeration_invariant_preserved");
     prop!(pre.n + batch.n <= MAX_TOKENS && batch.n <= 2 * BUCKET_SIZE, "C20.binder.bind_tokens.limits_exact");
     prop!(model::n_events() == batch.n, "C20.binder.bind_tokens.one_event_per_token");
-    let j: usize = kani::any();
-    kani::assume(j < model::NE);
-    if (j as u32) < batch.n {
-        let ev = TokenBound { token: Address::from_id(batch.at(j as u32)) };
-        let mut ok = false;
-        let mut k = 0;
-        while k < model::NE {
-            if k == j {
-                ok = model::event_is(k, TokenBound::EVENT_ID, &ev.event_words());
-            }
-            k += 1;
+    let mut ok = true;
+    let mut k = 0;
+    while k < model::NE {
+        if (k as u32) < batch.n {
+            let ev = TokenBound { token: Address::from_id(batch.x[k]) };
+            ok &= model::event_is(k, TokenBound::EVENT_ID, &ev.event_words());
         }
-        prop!(ok, "C20.binder.bind_tokens.events_in_batch_order");
+        k += 1;
     }
-    witness!(pre.n == 0 && batch.n == 4, "bind_tokens.four_into_empty");
-    witness!(pre.n == 2 && batch.n == 2, "bind_tokens.two_after_two");
-    witness!(batch.n == 0, "bind_tokens.empty_batch");
+    prop!(ok, "C20.binder.bind_tokens.events_in_batch_order");
     end_checks(2);
+}
+
+#[kani::proof]
+#[kani::unwind(14)]
+pub fn bind_tokens_step() {
+    setup_world();
+    let shape: u8 = kani::any();
+    if shape == 0 {
+        bind_tokens_shape(0, false, 2);
+        witness!(true, "bind_tokens.two_into_never_written_registry");
+    } else if shape == 1 {
+        bind_tokens_shape(0, true, 4);
+        witness!(true, "bind_tokens.four_into_emptied_registry");
+    } else if shape == 2 {
+        bind_tokens_shape(1, true, 3);
+        witness!(true, "bind_tokens.three_after_one");
+    } else if shape == 3 {
+        bind_tokens_shape(2, true, 2);
+        witness!(true, "bind_tokens.two_after_two");
+    } else if shape == 4 {
+        bind_tokens_shape(3, true, 1);
+        witness!(true, "bind_tokens.one_after_three");
+    } else {
+        bind_tokens_shape(2, true, 0);
+        witness!(true, "bind_tokens.empty_batch");
+    }
 }
 
 /// membership and the full list answer as the enumeration
